@@ -13,7 +13,7 @@ from schema import (HAND, emit_schema, F_MULTI, F_TITLE, F_LIST, o_int, o_float,
 SCHEMA = [
     o_int("a", 1), o_str("s", "sd"), o_list("int", "l", "{1, 2}"), o_float("f", "0.5"),
     o_sec("sec", [o_int("x", 7), o_str("y", "why")], F_MULTI | F_TITLE), o_sec("single", [o_int("x", 7)]),
-    o_func("include", "include"), o_func("fn"), o_func("nest", "nest"), o_func("nestfree", "nestfree"), o_int("dep", 1, 512), o_list("str", "depl", "{x}", 512 | 1024),
+    o_func("include", "include"), o_func("fn"), o_func("nest", "nest"), o_func("nestfree", "nestfree"), o_list("int", "nl", None, 16), o_int("dep", 1, 512), o_list("str", "depl", "{x}", 512 | 1024),
     # sacrificial options: only aborting texts mention them; the comparison ignores them
     o_int("zi", 0), o_float("zf", "0"), o_str("zs", "z"), o_list("str", "zl", None),
 ]
@@ -42,6 +42,9 @@ EVENTS = [
     ("ends-in-func-args", "abort", "fn(\"stale\","),
     ("ends-in-list", "abort", "zl = {p, q,"),
     ("ends-in-title", "abort", "sec \"tt\""),
+    ("accepted-nodefault-list", "parse", "nl = {1, 2}\n"),
+    ("ends-after-equal-sign", "abort", "nl ="),                 # (nl is no sacrificial option: nothing of this text is applied)
+    ("ends-in-first-list-value", "abort", "nl = {zz"),
     ("accepted-include-via-searchpath", "parse", "include(\"c08_sp.conf\")\n"),
     ("read-error-in-sq", "abort-fail", "zs = 'abc"),
     ("read-error-in-dq", "abort-fail", "zs = \"abc"),
@@ -68,6 +71,7 @@ PROBES = [
     "dep = 2\n",
     "depl += z\n# c\n",
     "dep = 5\n# c\ndepl = {}\n",
+    "nl += {3}\nl += {9}\n",
     "include(\"c08_sp.conf\")\nfn(x, \"y z\")\n",     # found through the context's own search path (differs between the two contexts)
 ]
 SP_PROBE = len(PROBES) - 1
